@@ -366,7 +366,7 @@ class FullExecutor(Executor):
             params, defaults = self.real_signature(real_fn)
         elif proto is not None:
             _, ps = contract_ast(proto)
-            params = [p for p in ps if p not in ("result", "old")]
+            params = [p for p in ps if p not in ("result", "old") and p not in c.ghost_out]
             defaults = {p: d for p, d in zip(reversed(params), reversed(proto.__defaults__ or ()))} if proto.__defaults__ else {}
             # defaults apply to the trailing params of the full signature (result/old come last, no defaults)
             if proto.__defaults__:
@@ -449,6 +449,8 @@ class FullExecutor(Executor):
             wf_assumptions(result, s3)
         if c.ensures is not None:
             b2 = dict(new_env)
+            for gname, gty in c.ghost_out.items():
+                b2[gname] = fresh(gty, "ghost_" + gname)   # existentially quantified witness
             b2["result"] = result if result is not None else K(None)
             b2["old"] = PyObj(old_ns)
             s3.assume(self.eval_contract(s3, c.ensures, {k: v for k, v in b2.items() if k in contract_ast(c.ensures)[1]}))
@@ -667,6 +669,18 @@ class FullExecutor(Executor):
         raise Unsupported("raise of a non-class expression")
 
     def s_If(self, st, s):
+        # split short-circuit conditions into separate paths (smaller VCs, one case per obligation)
+        t = s.test
+        if isinstance(t, ast.BoolOp) and len(t.values) >= 2:
+            first, rest = t.values[0], t.values[1:]
+            rest_e = rest[0] if len(rest) == 1 else ast.copy_location(ast.BoolOp(op=t.op, values=rest), t)
+            if isinstance(t.op, ast.Or):
+                inner = ast.copy_location(ast.If(test=rest_e, body=s.body, orelse=s.orelse), s)
+                outer = ast.copy_location(ast.If(test=first, body=s.body, orelse=[inner]), s)
+            else:
+                inner = ast.copy_location(ast.If(test=rest_e, body=s.body, orelse=s.orelse), s)
+                outer = ast.copy_location(ast.If(test=first, body=[inner], orelse=s.orelse), s)
+            return self.s_If(st, outer)
         c = truthy(self.eval(st, s.test))
         c = z3.simplify(c)
         outs = []
